@@ -71,11 +71,13 @@ def check(ctx):
     lp = [l for l in rf.for_loops()]
     ctx.check(len(lp) == 1 and str(lp[0]["iter"]) == "self.constraints", R, f, "iteration %s" % [str(l["iter"]) for l in lp],
               "every constraint of the block is consulted", "sample_mismatch_constraints iterates %s, not all of self.constraints" % [str(l["iter"]) for l in lp])
-    body = lp[0]["stmt"].body if lp else []
-    ctx.check(len(body) == 1 and isinstance(body[0], ast.If) and not body[0].orelse and
-              str(rf.at(body[0], body[0].test)) == "not(constraint.potential_sample_conforms(convert_sample_from_names_to_objects(sample, self.design), self))",
+    from ..facts import Facts as _F2
+    Fm = _F2(f)
+    reports = [x for x in Fm.stmts if isinstance(x, ast.Expr) and isinstance(x.value, ast.Call) and call_attr(x.value) == "append" and lp and any(x is y for y in ast.walk(lp[0]["stmt"]))]
+    cds = [Fm.conds(x) for x in reports]
+    ctx.check(len(reports) == 1 and cds[0] == ["not(constraint.potential_sample_conforms(convert_sample_from_names_to_objects(sample, self.design), self))"],
               R, f, "test", "a constraint is reported exactly when potential_sample_conforms is falsy",
-              "the constraint test changed: %s" % (str(rf.at(body[0], body[0].test)) if body and isinstance(body[0], ast.If) else "no single if"))
+              "the constraint test changed: a constraint is reported under %s" % cds)
     apps = [c for c, st in rf.calls_named("append") if dotted(c.func.value) == "res"]
     ctx.check(len(apps) == 1 and ast.unparse([s for s in f.node.body if isinstance(s, ast.Return)][0]) == "return res", R, f,
               "report", "failing constraints are appended to the returned list", "reporting of failing constraints changed")
@@ -118,10 +120,15 @@ def check(ctx):
     want_ = sym(ast.parse("i + (j - (self.window.width - 1)) * sustain_count", mode="eval").body)
     ctx.check(got == want_, R, f, "window index %s" % got, "argument j of the window is read at i + (j - (width-1)) x sustain",
               "window index is `%s`, expected i + (j - (width-1)) * sustain_count" % got, idx[0])
-    g = [s for s in rf.stmts if isinstance(s, ast.If) and "idx" in ast.unparse(s.test)]
-    ctx.check(len(g) == 1 and str(rf.at(g[0], g[0].test)).replace(str(got), "idx") in ("(0 <= idx)",) and
-              "args.append(None)" in ast.unparse(g[0]), R, f, "before start", "positions before the sequence start give None",
-              "handling of positions before the first trial changed")
+    # what is appended for position j: the level name at idx when idx >= 0, None otherwise (statement or expression form)
+    from ..facts import Facts as _F
+    Ff = _F(f)
+    apps = [x for x in Ff.stmts if isinstance(x, ast.Expr) and isinstance(x.value, ast.Call) and dotted(x.value.func) == "args.append"]
+    I = str(got)
+    forms = sorted((tuple(c.replace(I, "idx") for c in Ff.conds(x)), str(Ff.at(x, x.value.args[0])).replace(I, "idx")) for x in apps)
+    ok = forms == [(("(0 <= idx)",), "sample[f][idx].name"), (("(idx < 0)",), "None")] or \
+        forms == [((), "ite((0 <= idx), sample[f][idx].name, None)")] or forms == [((), "ite((idx < 0), None, sample[f][idx].name)")]
+    ctx.check(ok, R, f, "before start", "positions before the sequence start give None", "handling of positions before the first trial changed: %s" % forms)
     jl = [l for l in rf.for_loops() if l["target"] == "j"]
     ctx.check(len(jl) == 1 and str(jl[0]["iter"]) == "range(self.window.width)", R, f, "width loop", "all width positions are read",
               "window positions loop is %s" % [str(l["iter"]) for l in jl])
